@@ -332,21 +332,22 @@ pub fn check_wont(input: &[u8], which: usize, l: &mut Local) -> CaseResult {
     let cj = || json!({"wont": which, "input": hex(input)});
     l.eval();
     let e = wont(input, which).map_err(|p| fail("wont", format!("panicked: {}", p), cj()))?;
+    // the statement asks for "an error"; which kind is not prescribed (upstream: WontImplement)
     let ok = match which {
-        // a leading element is decoded first; truncation errors may precede the refusal
-        5 => matches!(e, Some(postcard::Error::WontImplement)) || (input.is_empty() && e == Some(postcard::Error::DeserializeUnexpectedEnd)),
         6 => {
             // Vec<Value>: an empty sequence never asks for an element; otherwise refusal (or a length-prefix error)
             match ref_decode(&Shape::U64, input) {
                 Ok(dd) if dd.value == Value::U(0) => e.is_none(),
-                Ok(_) => e == Some(postcard::Error::WontImplement),
-                Err(_) => e.is_some() && e != Some(postcard::Error::WontImplement),
+                _ => e.is_some(),
             }
         }
-        _ => e == Some(postcard::Error::WontImplement),
+        _ => e.is_some(),
     };
     if !ok {
-        return Err(fail("wont", format!("request the format cannot serve (case {}) gave {:?}, expected Err(WontImplement)", which, e), cj()));
+        return Err(fail("wont", format!("request the format cannot serve (case {}) gave {:?}, expected an error", which, e), cj()));
+    }
+    if e == Some(postcard::Error::WontImplement) {
+        l.class("refused-with-WontImplement");
     }
     l.nontrivial(&(which, input, 3u8));
     l.class("refused-any/identifier/ignored");
@@ -385,7 +386,7 @@ pub fn run(ctx: &Ctx) {
          at either end, and through from_io with a guard-paged scratch buffer; 20 real collection types under a counting allocator \
          with adversarial claimed lengths, from slices and (11 of them) through from_io / from_eio with small scratch buffers; 7 types that ask for deserialize_any / identifier / ignored_any. oracle: Ok or Err (no \
          panic, no fault), agreement with the reference decoder, borrowed items exactly at their encoded input offsets (inside the \
-         scratch for readers), bytes requested <= 64*max(size_of Elem,1)*(len+8) (readers: len+scratch+8), WontImplement. non-trivial = rejected input, \
+         scratch for readers), bytes requested <= 64*max(size_of Elem,1)*(len+8) (readers: len+scratch+8), any/identifier/ignored requests answered with an error. non-trivial = rejected input, \
          accepted input with a borrowed field, or adversarial length; distinct = hash(type, input)",
     );
     ctx.assume("allocation bound evaluated for strings, byte buffers and sequences of non-zero-width elements decoded from slices (maps and zero-width elements are outside the statement)");
